@@ -19,10 +19,15 @@ for arg in sys.argv[1:]:
     os.makedirs("/tmp/seedchk", exist_ok=True)
     st.sh("git -C /repo worktree add -q --detach %s HEAD" % wt)
     try:
-        pf = os.path.join(d, "patch.diff")
-        rc, out = st.sh("git apply %s" % pf, cwd=wt)
-        if rc:
-            rc, out = st.sh("git apply --3way %s" % pf, cwd=wt)
+        rc = 1
+        for pf in sorted(f for f in os.listdir(d) if f.startswith("patch-rebased")) + ["patch.diff"]:
+            pf = os.path.join(d, pf)
+            rc, out = st.sh("git apply %s" % pf, cwd=wt)
+            if rc:
+                rc, out = st.sh("git apply --3way %s" % pf, cwd=wt)
+            if rc == 0:
+                break
+            st.sh("git checkout -- . && git clean -fdq", cwd=wt)
         if rc:
             print(name, "patch does not apply")
             continue
